@@ -136,7 +136,7 @@ def plot_cyclepoints_array(sig, fs, peaks=None, troughs=None, rises=None, decays
     check_param_range(fs, 'fs', (0, np.inf))
 
     # Set times and limits
-    times = np.arange(0, len(sig) / fs, 1 / fs)
+    times = np.arange(len(sig)) / fs
 
     # Restrict sig and times to xlim
     if xlim is not None:
